@@ -86,7 +86,14 @@ def run(run):
         run.floor(r, n)
     project = run.project
     ev = sym.make_evaluator(project, T, [])
-    ev.static_len = lambda t: 4 if (t[0] == "attr" and t[2] == "corners") else None      # a tile has four corners
+    def _four_corners(t):
+        # a tile has four corners; `corners[:4]` is the same four
+        if t[0] == "attr" and t[2] == "corners":
+            return 4
+        if t[0] == "sub" and t[1][0] == "attr" and t[1][2] == "corners" and t[2] == ("slice", sym.NONE, num(4), sym.NONE):
+            return 4
+        return None
+    ev.static_len = _four_corners
     two_pi = sym.mul(num(2), PI)
     f = project.fn(T + ".toast_tile_for_point")
     run.note_func(f)
@@ -153,7 +160,11 @@ def run(run):
             run.violated("C12.R3", f, lv1[0].node, "level-1 longitude is %s; expected lon mod 2pi, plus pi (mod 2pi) exactly for PLANETARY" % show(x)[:140], kind="level1-rotation")
     # level-1 ranges vs the corner table: the score function is evaluated over a finite domain (17 longitudes k*pi/8,
     # the four level-1 positions) and the positions it accepts are compared with the table's equatorial corners
-    rs = ev.run(sc.node)
+    # (helpers of the score function -- e.g. a table-driven "which quadrant owns this longitude" -- are part of it)
+    ev_sc = sym.make_evaluator(project, T, [], inline_local=True, no_inline=("_left_of_half_space_score", "_equ_to_xyz", "_div4", "_create_level1_tiles"))
+    ev_sc.static_len = ev.static_len
+    ev_sc.unroll = True
+    rs = ev_sc.run(sc.node)
     tile_p, lat_s, lon_s = (("sym", p) for p in sc.params()[:3])
     posx, posy, posn = (("attr", ("attr", tile_p, "pos"), a) for a in ("x", "y", "n"))
     name, rows, node = level1_table(project)
